@@ -222,7 +222,9 @@ func c16Plan(b c16Beh, n int) (sizes []int, garbage bool, after int) {
 	case c16BEarlyClose:
 		return nil, false, 1
 	case c16BStallHalf:
-		return chunks(n/2, 4000), false, 0
+		// whole 4000-byte messages only: a last message below 100 bytes would be refused as "too small" and the
+		// request would end at once instead of stalling (NumBytes is the server's random choice)
+		return chunks(n/2/4000*4000, 4000), false, 0
 	case c16BMaxChunks:
 		return chunks(n, 8186), false, 0
 	case c16BVarintEdge:
